@@ -601,6 +601,59 @@ pub fn run(ctx: &mut Ctx) {
         }
         run::end_case();
     });
+    // a working directory is requested and the program is named relative to it (`./tool`, `bin/tool`): the child changes
+    // directory first and starts the program from there - where the caller itself happens to stand does not matter
+    let nrel = ctx.n(60, 1200);
+    ctx.family("program-relative-to-the-requested-directory", nrel, |ctx, rng, i| {
+        use std::os::unix::ffi::OsStrExt;
+        run::begin_case();
+        let dir = ctx.scratch("c06d");
+        let sub = dir.join("bin");
+        let _ = std::fs::create_dir_all(&sub);
+        let in_sub = i % 2 == 0;
+        let exe = spawn::report_exe(ctx, if in_sub { &sub } else { &dir }, "d", "x");
+        let base = exe.file_name().unwrap().to_string_lossy().into_owned();
+        let rel = match (in_sub, (i / 2) % 2) {
+            (true, 0) => format!("bin/{}", base),
+            (true, _) => format!("./bin/{}", base),
+            (false, 0) => format!("./{}", base),
+            (false, _) => format!("bin/../{}", base),
+        };
+        let route = (i / 4) % 3;
+        let args: Vec<String> = (0..rng.below(3)).map(|k| format!("arg{}", k)).collect();
+        let (rel2, dir2, args2) = (rel.clone(), dir.clone(), args.clone());
+        let m = run::monitored(move || -> Result<(), String> {
+            match route {
+                0 => subprocess::Exec::cmd(&rel2).args(&args2).cwd(&dir2).join().map(|_| ()).map_err(|e| e.to_string()),
+                1 => {
+                    let mut argv = vec![std::ffi::OsString::from(&rel2)];
+                    argv.extend(args2.iter().map(std::ffi::OsString::from));
+                    Popen::create(&argv, PopenConfig { cwd: Some(dir2.clone().into_os_string()), ..Default::default() }).and_then(|mut p| p.wait().map(|_| ())).map_err(|e| e.to_string())
+                }
+                _ => {
+                    // the program is named apart from argv[0]
+                    let mut argv = vec![std::ffi::OsString::from("shown-as-argv0")];
+                    argv.extend(args2.iter().map(std::ffi::OsString::from));
+                    Popen::create(&argv, PopenConfig { cwd: Some(dir2.clone().into_os_string()), executable: Some(std::ffi::OsString::from(&rel2)), ..Default::default() }).and_then(|mut p| p.wait().map(|_| ())).map_err(|e| e.to_string())
+                }
+            }
+        });
+        ctx.count("launches_of_a_program_named_relative_to_the_requested_directory", 1);
+        ctx.distinct(&format!("reldir|{}|{}", rel.replace(&base, "X"), route));
+        let w = J::obj().set("program", J::s(&rel)).set("cwd", J::s(&dir.to_string_lossy())).set("route", J::s(["Exec::cwd", "PopenConfig::cwd", "PopenConfig::cwd+executable"][route as usize]));
+        match (m.result, spawn::get_report(&exe, 3000)) {
+            (Some(Ok(())), Some(r)) => {
+                ctx.count("children_inspected", 1);
+                let want_cwd = std::fs::canonicalize(&dir).unwrap_or(dir.clone());
+                if r.cwd != want_cwd.as_os_str().as_bytes() {
+                    ctx.violation("C06/cwd/program-relative-to-it", "the program ran in another directory than the requested one", w.set("child_cwd", J::bytes(&r.cwd)));
+                }
+            }
+            (Some(Err(e)), _) => ctx.violation("C06/program-relative-to-cwd-not-started", &format!("a program that exists relative to the requested working directory was not started: {}", e), w),
+            (res, _) => ctx.inconclusive("launch did not run or report", J::s(&format!("{:?}", res))),
+        }
+        run::end_case();
+    });
     // the parent has no PATH (or an empty one) and the program is a bare name; whatever program of that name the launch
     // finds (one in the working directory, one on a default path), it is given exactly the environment that was requested
     let np = ctx.n(60, 1500);
